@@ -89,7 +89,20 @@ func (b *c14b) markerStmt(file, fn, dvar string, indent int, dead bool) {
 	nextLine := len(*b.files[file]) + 1
 	id := b.marker(file, fn, nextLine, dead)
 	call := "mk.mark(" + itoa(id) + ", " + dvar + ")"
-	switch b.r.Intn(16) {
+	switch b.r.Intn(20) {
+	case 16:
+		b.emit(file, fn, "for "+b.v()+" := 0; "+"false"+"; {", indent)
+		b.emit(file, fn, "}", indent)
+		b.nextLineFix(file, fn, id)
+		x := b.v()
+		b.emit(file, fn, "for "+x+" := 0; "+x+" < 1; "+x+" += "+call+" {", indent)
+		b.emit(file, fn, "}", indent)
+	case 17:
+		b.emit(file, fn, b.v()+" := false || "+call+" > 0", indent)
+	case 18:
+		b.emit(file, fn, b.v()+" := true && "+call+" > 0", indent)
+	case 19:
+		b.emit(file, fn, b.v()+" := error("+call+").value + 1", indent)
 	case 14, 15:
 		// the same helper literal text at every use: identical code, different places
 		m := b.meta.Markers[id]
@@ -230,7 +243,7 @@ func (b *c14b) noise(file, fn string, indent int) {
 }
 
 func (b *c14b) planted(file, fn, dvar string, indent int) {
-	kinds := []string{"oob", "strlimit", "byteslimit", "illTyped", "notCallable", "oobSel", "strlimitFmt", "strlimitConv", "byteslimitConv"}
+	kinds := []string{"oob", "strlimit", "byteslimit", "illTyped", "notCallable", "oobSel", "strlimitFmt", "strlimitConv", "byteslimitConv", "sliceBad", "iterBad", "unaryBad", "complBad", "selBad", "immutableSet"}
 	kind := kinds[b.r.Intn(len(kinds))]
 	b.emit(file, fn, "if mk.boom() == "+itoa(b.nextID+1)+" {", indent)
 	parr := b.v()
@@ -240,6 +253,9 @@ func (b *c14b) planted(file, fn, dvar string, indent int) {
 	if kind == "oobSel" {
 		b.emit(file, fn, parr+" := {a: {b: [1, 2]}}", indent+1)
 	}
+	if kind == "immutableSet" {
+		b.emit(file, fn, parr+" := immutable([1, 2])", indent+1)
+	}
 	nextLine := len(*b.files[file]) + 1
 	id := b.marker(file, fn, nextLine, false)
 	call := "mk.mark(" + itoa(id) + ", " + dvar + ")"
@@ -248,6 +264,19 @@ func (b *c14b) planted(file, fn, dvar string, indent int) {
 		b.emit(file, fn, parr+"["+call+" + 5] = 1", indent+1)
 	case "oobSel":
 		b.emit(file, fn, parr+".a.b["+call+" + 5] = 1", indent+1)
+	case "sliceBad":
+		b.emit(file, fn, b.v()+" := [1, 2, 3][\"a\" + string("+call+"):]", indent+1)
+	case "iterBad":
+		b.emit(file, fn, "for "+b.v()+" in "+call+" {", indent+1)
+		b.emit(file, fn, "}", indent+1)
+	case "unaryBad":
+		b.emit(file, fn, b.v()+" := -string("+call+")", indent+1)
+	case "complBad":
+		b.emit(file, fn, b.v()+" := ^(2.5 + float("+call+"))", indent+1)
+	case "selBad":
+		b.emit(file, fn, b.v()+" := "+call+".field.deeper", indent+1)
+	case "immutableSet":
+		b.emit(file, fn, parr+"["+call+" - "+itoa(id)+"] = 3", indent+1)
 	case "strlimitFmt":
 		b.emit(file, fn, b.v()+" := format(\"%s|%s\", \"0123456789abcdef012345678\", string("+call+"))", indent+1)
 	case "strlimitConv":
